@@ -274,7 +274,7 @@ impl ReadHandler for CountingRH {
 // @props C15,C17
 // @tier thorough
 // @class attempt
-// @timeout 3600
+// @timeout 1800
 // @mem 8
 // @units Association::{handle_unsolicited_response (async, polled once), is_integrity_complete, on_integrity_scan_complete}, LastUnsolFragment, extract_measurements
 // @bounds a data-bearing unsolicited fragment (g2v1 one event, constant bytes; control octet arbitrary) arriving BEFORE the start-up integrity poll completed: not accepted (no confirm), not delivered, and NOT remembered - so that the byte-identical retransmission after the integrity poll is delivered exactly once and only a further copy is treated as a repeat (confirmed, not delivered again)
@@ -339,7 +339,7 @@ fn kind(n: &Next<Task>) -> Kind {
 // @props C17
 // @tier thorough
 // @class attempt
-// @timeout 3600
+// @timeout 900
 // @mem 12
 // @units TaskStates::next, AutoTaskState::create_next_task
 // @bounds all six automatic-task states idle or pending (no retry waits), any configuration (class sets, time sync on/off), any events-available bits: the task chosen is the FIRST applicable one in the order clear-restart > disable-unsolicited > integrity > time-sync > enable-unsolicited > event-scan (so unsolicited reporting is enabled only after integrity and time sync, and a restart is acknowledged before anything else).  Attempt-and-report: the result is a big task enum returned by value.
